@@ -28,7 +28,10 @@ def knots(rng, n):
         else:
             x = rng.choice([x + rng.uniform(0, 1), x - rng.uniform(0, 1), x, x + EPS, x + EPS / 2, 0.0, -0.0])
         xs.append(x)
-    ks = [[C.bits(x), C.bits(rng.choice([rng.small_int(-5, 5), rng.uniform(-4, 4), rng.f64_loguniform(-10, 10)]))] for x in xs]
+    ysc = rng.choice([1.0, 1.0, 1.0, 1e-17, 1e-20, 2.0 ** -60, 1e-300])     # also ordinates far below machine epsilon
+    ks = [[C.bits(x), C.bits(ysc * rng.choice([rng.small_int(-5, 5), rng.uniform(-4, 4), rng.f64_loguniform(-10, 10)]))] for x in xs]
+    if ysc != 1.0:
+        style += "+tiny_y"
     if rng.random() < 0.2:
         # a knot repeated verbatim (same x and same y), at the start, the end or inside; sometimes all knots identical
         j = rng.choice([0, len(ks) - 1, rng.randrange(len(ks))])
